@@ -454,9 +454,7 @@ func (h *StreamableHTTPHandler) serveStateless(w http.ResponseWriter, req *http.
 		http.Error(w, "failed connection", http.StatusInternalServerError)
 		return
 	}
-	defer session.Close()
-
-	transport.ServeHTTP(w, req)
+	serveEphemeral(w, req, session, transport, info)
 }
 
 // serveStatelessLegacyDELETE handles DELETE requests in stateless mode when the
@@ -476,6 +474,27 @@ type ephemeralConnectInfo struct {
 	opts                  *ServerSessionOptions
 	usesNewProtocol       bool
 	isSubscriptionsListen bool
+	hasCall               bool // the request contains at least one call
+}
+
+// serveEphemeral serves the single request of a temporary session, then closes
+// the session.
+func serveEphemeral(w http.ResponseWriter, req *http.Request, session *ServerSession, transport *StreamableServerTransport, info *ephemeralConnectInfo) {
+	defer session.Close()
+
+	transport.ServeHTTP(w, req)
+	if !info.hasCall {
+		// Notifications (and responses) are acknowledged as soon as they are
+		// queued for the session, which may not have read them yet; closing the
+		// session now would drop them unhandled although the client was told
+		// that they were accepted. This request is all the input the session
+		// will ever get, so end its input instead and wait until it has handled
+		// what it was given. (Nothing has been sent to the client yet: the
+		// acknowledgement goes out when the HTTP handler returns, so a client
+		// that has seen it can rely on the notification having been handled.)
+		close(transport.connection.incoming)
+		session.Wait()
+	}
 }
 
 // ephemeralConnectOpts peeks at the request body to determine connection
@@ -491,7 +510,7 @@ func (h *StreamableHTTPHandler) ephemeralConnectOpts(req *http.Request) (*epheme
 		protocolVersion = protocolVersion20250326
 	}
 
-	var hasInitialize, hasInitialized, usesNewProtocol, isSubscriptionsListen bool
+	var hasInitialize, hasInitialized, usesNewProtocol, isSubscriptionsListen, hasCall bool
 	body, err := io.ReadAll(req.Body)
 	if err != nil {
 		// Preserve *http.MaxBytesError so serveStateless can respond with 413.
@@ -503,6 +522,9 @@ func (h *StreamableHTTPHandler) ephemeralConnectOpts(req *http.Request) (*epheme
 	if err == nil {
 		for _, msg := range msgs {
 			if r, ok := msg.(*jsonrpc.Request); ok {
+				if r.IsCall() {
+					hasCall = true
+				}
 				switch r.Method {
 				case methodInitialize:
 					hasInitialize = true
@@ -538,6 +560,7 @@ func (h *StreamableHTTPHandler) ephemeralConnectOpts(req *http.Request) (*epheme
 		},
 		usesNewProtocol:       usesNewProtocol,
 		isSubscriptionsListen: isSubscriptionsListen,
+		hasCall:               hasCall,
 	}, nil
 }
 
@@ -700,8 +723,7 @@ func (h *StreamableHTTPHandler) serveStatefulPOST(w http.ResponseWriter, req *ht
 			http.Error(w, "failed connection", http.StatusInternalServerError)
 			return
 		}
-		defer session.Close()
-		transport.ServeHTTP(w, req)
+		serveEphemeral(w, req, session, transport, info)
 		return
 	}
 
